@@ -662,5 +662,302 @@ theorem runLevelLoop_eq_mapM_walk {κ} (t : RawTree) (vote : Oracle κ) (cells :
     (fun i d c hd hc => (hspec i c hc).2 d hd)]
   rfl
 
+/-! ### `child_to_parent` of a well-formed tree -/
+
+theorem mem_zip_of_split (pl cl : Level) (post : List Level) :
+    ∀ (pre : List Level) (x : Option Level),
+      (some pl, cl) ∈ (x :: (pre ++ pl :: cl :: post).map some).zip (pre ++ pl :: cl :: post)
+  | [], x => by simp
+  | a :: pre, x => by
+    simp only [List.cons_append, List.map_cons, List.zip_cons_cons, List.mem_cons]
+    exact Or.inr (mem_zip_of_split pl cl post pre (some a))
+
+theorem mem_zip_snd (l : Level) : ∀ (ls : List Level) (x : Option Level), l ∈ ls →
+    ∃ a, (a, l) ∈ (x :: ls.map some).zip ls
+  | [], _, h => by cases h
+  | b :: ls, x, h => by
+    simp only [List.map_cons, List.zip_cons_cons, List.mem_cons]
+    rcases List.mem_cons.mp h with h | h
+    · subst h; exact ⟨x, Or.inl rfl⟩
+    · obtain ⟨a, ha⟩ := mem_zip_snd l ls (some b) h
+      exact ⟨a, Or.inr ha⟩
+
+theorem wfb_levelOK {t : RawTree} (hwf : wfb t = true) {pl : Option Level} {cl : Level}
+    (h : (pl, cl) ∈ levelPairs t) : levelOK t pl cl = true := by
+  simp only [wfb, Bool.and_eq_true, List.all_eq_true] at hwf
+  exact hwf.2 (pl, cl) h
+
+theorem wfb_nodup_hierarchy {t : RawTree} (hwf : wfb t = true) : t.hierarchy.Nodup := by
+  simp only [wfb, Bool.and_eq_true, Bool.not_eq_true'] at hwf
+  exact hasDup_false_nodup _ hwf.1
+
+theorem wfb_nodup_nodesAt {t : RawTree} (hwf : wfb t = true) {l : Level} (hl : l ∈ t.hierarchy) :
+    (t.nodesAt l).Nodup := by
+  obtain ⟨a, ha⟩ := mem_zip_snd l t.hierarchy none hl
+  have := wfb_levelOK hwf (pl := a) (cl := l) ha
+  simp only [levelOK, Bool.and_eq_true, Bool.not_eq_true'] at this
+  exact hasDup_false_nodup _ this.1
+
+theorem lookup_of_mem_nodup {β} : ∀ (m : List (Nat × β)) (k : Nat) (v : β),
+    (m.map (·.1)).Nodup → (k, v) ∈ m → m.lookup k = some v
+  | [], _, _, _, h => by cases h
+  | (k', v') :: m, k, v, hn, h => by
+    simp only [List.map_cons, List.nodup_cons] at hn
+    rcases List.mem_cons.mp h with h | h
+    · cases h; simp [List.lookup]
+    · have hne : k ≠ k' := by
+        intro he
+        exact hn.1 (List.mem_map.mpr ⟨(k, v), h, he⟩)
+      have : (k == k') = false := by simpa using hne
+      simp only [List.lookup, this]
+      exact lookup_of_mem_nodup m k v hn.2 h
+
+theorem mem_of_lookup {β} : ∀ (m : List (Nat × β)) (k : Nat) (v : β),
+    m.lookup k = some v → (k, v) ∈ m
+  | [], _, _, h => by cases h
+  | (k', v') :: m, k, v, h => by
+    simp only [List.lookup] at h
+    split at h
+    · rename_i heq
+      have : k = k' := by simpa using heq
+      cases h; subst this; simp
+    · exact List.mem_cons_of_mem _ (mem_of_lookup m k v h)
+
+theorem idxOf_split (pl cl : Level) (post : List Level) :
+    ∀ (pre : List Level), (pre ++ pl :: cl :: post).Nodup →
+      (pre ++ pl :: cl :: post).idxOf? cl = some (pre.length + 1) ∧
+      (pre ++ pl :: cl :: post)[pre.length]? = some pl
+  | [], h => by
+    have hne : pl ≠ cl := by
+      intro he; subst he
+      simp at h
+    have : (pl == cl) = false := by simpa using hne
+    simp [List.idxOf?_cons, this]
+  | a :: pre, h => by
+    have h' := List.nodup_cons.mp h
+    have hne : a ≠ cl := by
+      intro he; subst he
+      exact h'.1 (by simp)
+    have hb : (a == cl) = false := by simpa using hne
+    obtain ⟨ih1, ih2⟩ := idxOf_split pl cl post pre h'.2
+    refine ⟨?_, by simpa using ih2⟩
+    simp only [List.cons_append, List.idxOf?_cons, hb, Bool.false_eq_true, if_false, ih1]
+    rfl
+
+theorem parentLevel_of_split {t : RawTree} (hnd : t.hierarchy.Nodup) {pre post : List Level}
+    {pl cl : Level} (hs : t.hierarchy = pre ++ pl :: cl :: post) : t.parentLevel cl = some pl := by
+  rw [hs] at hnd
+  obtain ⟨h1, h2⟩ := idxOf_split pl cl post pre hnd
+  simp only [RawTree.parentLevel, RawTree.levelIdx, hs, h1, h2]
+
+/-- the children of `(pl, p)` are the stored list when `p` is a node of `pl` -/
+theorem kidsD_of_mem_level {t : RawTree} {pl : Level} (hk : (t.nodesAt pl).Nodup)
+    {p : Node} {cs : List Nat} (hm : (p, cs) ∈ t.level pl) : kidsD t (some (pl, p)) = cs := by
+  have hlook : (t.level pl).lookup p = some cs := lookup_of_mem_nodup _ p cs hk hm
+  have hp : p ∈ t.nodesAt pl := List.mem_map.mpr ⟨(p, cs), hm, rfl⟩
+  have hlev : (t.levels.map (·.1)).contains pl = true := by
+    cases hl : t.levels.lookup pl with
+    | none =>
+      simp [RawTree.level, hl] at hm
+    | some m =>
+      have := mem_of_lookup _ _ _ hl
+      exact List.contains_iff_mem.mpr (List.mem_map.mpr ⟨(pl, m), this, rfl⟩)
+  have hp' : (t.nodesAt pl).contains p = true := List.contains_iff_mem.mpr hp
+  simp only [kidsD, RawTree.children, hlev, hp', RawTree.entry, hlook, Bool.not_true,
+    Bool.false_eq_true, if_false, Option.getD_some]
+
+theorem childToParent_of_kid {t : RawTree} (hwf : wfb t = true) {pre post : List Level}
+    {pl cl : Level} (hs : t.hierarchy = pre ++ pl :: cl :: post) {p c : Node}
+    (hp : p ∈ t.nodesAt pl) (hc : c ∈ kidsD t (some (pl, p))) :
+    t.childToParent cl c = some p := by
+  have hnd := wfb_nodup_hierarchy hwf
+  have hpl : pl ∈ t.hierarchy := by rw [hs]; simp
+  have hk := wfb_nodup_nodesAt hwf hpl
+  have hpair : (some pl, cl) ∈ levelPairs t := by
+    unfold levelPairs; rw [hs]; exact mem_zip_of_split pl cl post pre none
+  have facts := levelOK_facts t (some pl) cl (wfb_levelOK hwf hpair)
+  -- p's own entry
+  obtain ⟨⟨p0, cs0⟩, hm0, hp0⟩ := List.mem_map.mp hp
+  simp only at hp0; subst hp0
+  have hk0 := kidsD_of_mem_level hk hm0
+  rw [hk0] at hc
+  simp only [RawTree.childToParent, parentLevel_of_split hnd hs]
+  cases hf : (t.level pl).reverse.find? (fun x => x.2.contains c) with
+  | none =>
+    have := List.find?_eq_none.mp hf (p0, cs0) (List.mem_reverse.mpr hm0)
+    simp [hc] at this
+  | some pc =>
+    obtain ⟨p', cs'⟩ := pc
+    have hmem : (p', cs') ∈ t.level pl := List.mem_reverse.mp (List.mem_of_find?_eq_some hf)
+    have hc' : c ∈ cs' := by
+      have := List.find?_some hf
+      simpa using this
+    have hk' := kidsD_of_mem_level hk hmem
+    have hp'mem : p' ∈ t.nodesAt pl := List.mem_map.mpr ⟨(p', cs'), hmem, rfl⟩
+    simp only [Option.map_some, Option.some.injEq]
+    by_cases he : p' = p0
+    · exact he
+    · exfalso
+      have h1 : some (pl, p') ∈ parentNodeList t (some pl) :=
+        (mem_parentNodeList_some t pl _).mpr ⟨p', hp'mem, rfl⟩
+      have h2 : some (pl, p0) ∈ parentNodeList t (some pl) :=
+        (mem_parentNodeList_some t pl _).mpr ⟨p0, hp, rfl⟩
+      exact facts.disj _ h1 _ h2 (by intro h; cases h; exact he rfl) c (by rw [hk']; exact hc')
+        (by rw [hk0]; exact hc)
+
+/-! ### root-to-leaf paths -/
+
+/-- `(level, assignment)` of every per-level dict -/
+def assignments (es : List (Level × Entry)) : List (Level × Node) :=
+  es.map (fun le => (le.1, le.2.assignment))
+
+/-- consecutive assignments are related by `child_to_parent`; `p` = the node
+above the first one (`none` = nothing above) -/
+def LinkedFrom (t : RawTree) : Parent → List (Level × Node) → Prop
+  | _, [] => True
+  | none, (l, n) :: rest => LinkedFrom t (some (l, n)) rest
+  | some (_, pn), (l, n) :: rest => t.childToParent l n = some pn ∧ LinkedFrom t (some (l, n)) rest
+
+/-- one assignment per level of the hierarchy, each a node of its level,
+consecutive ones related by `child_to_parent` -/
+def IsRootToLeafPath (t : RawTree) (es : List (Level × Entry)) : Prop :=
+  es.map (·.1) = t.hierarchy ∧ (∀ le ∈ es, le.2.assignment ∈ t.nodesAt le.1) ∧
+  LinkedFrom t none (assignments es)
+
+/-- `p` is a legitimate position after the levels `pre` -/
+def At (t : RawTree) (pre : List Level) (p : Parent) : Prop :=
+  (pre = [] ∧ p = none) ∨ ∃ pre' pl n, pre = pre' ++ [pl] ∧ p = some (pl, n) ∧ n ∈ t.nodesAt pl
+
+theorem walkFrom_path {κ} {t : RawTree} {vote : Oracle κ} (hwf : wfb t = true)
+    (hv : VoteOK t vote) (c : κ) :
+    ∀ (ls pre : List Level) (p : Parent), t.hierarchy = pre ++ ls → At t pre p →
+      ∃ es, walkFrom t vote c ls p = .ok es ∧ es.map (·.1) = ls ∧
+        (∀ le ∈ es, le.2.assignment ∈ t.nodesAt le.1) ∧ LinkedFrom t p (assignments es)
+  | [], _, p, _, _ => ⟨[], rfl, rfl, by simp, by simp [assignments, LinkedFrom]⟩
+  | cl :: rest, pre, p, hs, hat => by
+    -- the (parent level, child level) pair and the membership of p
+    have hpair : ∃ plo, (plo, cl) ∈ levelPairs t ∧ p ∈ parentNodeList t plo := by
+      rcases hat with ⟨rfl, rfl⟩ | ⟨pre', pl, n, rfl, rfl, hn⟩
+      · refine ⟨none, ?_, by simp [parentNodeList]⟩
+        unfold levelPairs; rw [hs]; simp
+      · refine ⟨some pl, ?_, (mem_parentNodeList_some t pl _).mpr ⟨n, hn, rfl⟩⟩
+        unfold levelPairs; rw [hs, List.append_assoc]
+        exact mem_zip_of_split pl cl rest pre' none
+    obtain ⟨plo, hmem, hp⟩ := hpair
+    have facts := levelOK_facts t plo cl (wfb_levelOK hwf hmem)
+    obtain ⟨kids, hkids, hkne, hsub⟩ := facts.kids p hp
+    have hkne' : kids.isEmpty = false := by
+      cases kids with
+      | nil => exact absurd rfl hkne
+      | cons a b => rfl
+    have ha := voteFn_mem hv p cl kids c hkne
+    have hnode : (voteFn t vote p cl kids c).assignment ∈ t.nodesAt cl := by
+      obtain ⟨k, hk, he⟩ := (mem_parentNodeList_some t cl _).mp (hsub _ ha)
+      cases he; exact hk
+    obtain ⟨es, hes, hfst, hnodes, hlink⟩ := walkFrom_path hwf hv c rest (pre ++ [cl])
+      (some (cl, (voteFn t vote p cl kids c).assignment)) (by rw [hs]; simp)
+      (Or.inr ⟨pre, cl, _, rfl, rfl, hnode⟩)
+    refine ⟨(cl, entryOf (voteFn t vote p cl kids c)) :: es, ?_, by simp [hfst], ?_, ?_⟩
+    · simp only [walkFrom, hkids, hkne', Bool.false_eq_true, if_false, hes]
+    · intro le hle
+      rcases List.mem_cons.mp hle with h | h
+      · subst h
+        have : (entryOf (voteFn t vote p cl kids c)).assignment =
+            (voteFn t vote p cl kids c).assignment := by
+          unfold entryOf; split <;> rfl
+        simpa [this] using hnode
+      · exact hnodes le h
+    · have hassign : (entryOf (voteFn t vote p cl kids c)).assignment =
+          (voteFn t vote p cl kids c).assignment := by
+        unfold entryOf; split <;> rfl
+      simp only [assignments, List.map_cons, hassign]
+      rcases hat with ⟨rfl, rfl⟩ | ⟨pre', pl, n, rfl, rfl, hn⟩
+      · exact hlink
+      · refine ⟨?_, hlink⟩
+        apply childToParent_of_kid hwf (pre := pre') (post := rest) (pl := pl)
+          (by rw [hs, List.append_assoc]; rfl) hn
+        rw [kidsD_of_ok hkids]; exact ha
+
+theorem assignments_fillCorr : ∀ (prev : Option Rat) (es : List (Level × Entry)),
+    assignments (fillCorr prev es) = assignments es
+  | _, [] => rfl
+  | prev, (l, e) :: rest => by
+    simp only [fillCorr]
+    cases h : e.corr with
+    | none =>
+      have ih := assignments_fillCorr prev rest
+      simp only [assignments, List.map_cons] at ih ⊢
+      rw [ih]
+    | some x =>
+      have ih := assignments_fillCorr e.corr rest
+      simp only [assignments, List.map_cons] at ih ⊢
+      rw [ih]
+
+theorem assignments_fillDown : ∀ (es : List (Level × Entry)),
+    assignments (fillDown es) = assignments es
+  | [] => rfl
+  | (l, e) :: rest => by
+    have := assignments_fillCorr e.corr rest
+    simp only [assignments] at this
+    simp only [fillDown, assignments, List.map_cons, this]
+
+theorem assignments_fillUp (es : List (Level × Entry)) : assignments (fillUp es) = assignments es := by
+  have := assignments_fillDown es.reverse
+  simp only [assignments, fillUp, List.map_reverse] at this ⊢
+  rw [this, List.reverse_reverse]
+
+theorem assignments_addAggregate : ∀ (acc : Rat) (es : List (Level × Entry)),
+    assignments (addAggregate acc es) = assignments es
+  | _, [] => rfl
+  | acc, (l, e) :: rest => by
+    have := assignments_addAggregate (acc * e.prob) rest
+    simp only [assignments] at this
+    simp only [addAggregate, assignments, List.map_cons, this]
+
+theorem assignments_finishCell (es : List (Level × Entry)) :
+    assignments (finishCell es) = assignments es := by
+  simp only [finishCell, assignments_addAggregate, assignments_fillUp, assignments_fillDown]
+
+theorem isPath_congr {t : RawTree} {es es' : List (Level × Entry)}
+    (h : assignments es' = assignments es) (hp : IsRootToLeafPath t es) : IsRootToLeafPath t es' := by
+  obtain ⟨h1, h2, h3⟩ := hp
+  have hfst : ∀ xs : List (Level × Entry), xs.map (·.1) = (assignments xs).map (·.1) := by
+    intro xs; simp [assignments]
+  refine ⟨by rw [hfst, h, ← hfst]; exact h1, ?_, by rw [h]; exact h3⟩
+  intro le hle
+  have hm : (le.1, le.2.assignment) ∈ assignments es' := List.mem_map.mpr ⟨le, hle, rfl⟩
+  rw [h] at hm
+  obtain ⟨le0, hle0, he⟩ := List.mem_map.mp hm
+  have := h2 le0 hle0
+  obtain ⟨e1, e2⟩ := Prod.mk.inj he
+  rw [← e1, ← e2]
+  exact this
+
+/-- the one-cell walk never fails on a well-formed tree and yields a
+root-to-leaf path -/
+theorem walk_path {κ} {t : RawTree} {vote : Oracle κ} (hwf : wfb t = true) (hv : VoteOK t vote)
+    (c : κ) : ∃ r, walk t vote c = .ok r ∧ IsRootToLeafPath t r := by
+  obtain ⟨es, hes, hfst, hnodes, hlink⟩ :=
+    walkFrom_path hwf hv c t.hierarchy [] none (by simp) (Or.inl ⟨rfl, rfl⟩)
+  refine ⟨finishCell es, by simp only [walk, hes], ?_⟩
+  exact isPath_congr (assignments_finishCell es) ⟨hfst, hnodes, hlink⟩
+
+theorem mapM_ok_of_forall {α β ε} (f : α → Except ε β) : ∀ (cs : List α),
+    (∀ c ∈ cs, ∃ r, f c = .ok r) →
+    ∃ rs, cs.mapM f = .ok rs ∧ rs.length = cs.length ∧
+      ∀ (i : Nat) c r, cs[i]? = some c → rs[i]? = some r → f c = .ok r
+  | [], _ => ⟨[], rfl, rfl, by simp⟩
+  | c :: cs, h => by
+    obtain ⟨r, hr⟩ := h c (by simp)
+    obtain ⟨rs, hrs, hlen, hpt⟩ := mapM_ok_of_forall f cs (fun x hx => h x (List.mem_cons_of_mem _ hx))
+    refine ⟨r :: rs, ?_, by simp [hlen], ?_⟩
+    · simp only [List.mapM_cons, hr, hrs]; rfl
+    · intro i c' r' hc' hr'
+      cases i with
+      | zero =>
+        simp at hc' hr'; subst hc'; subst hr'; exact hr
+      | succ j =>
+        exact hpt j c' r' (by simpa using hc') (by simpa using hr')
+
 end LevelLoop
 end CTM
